@@ -65,12 +65,13 @@ def check_pair(ctx, sc):
             ctx.fail("multiple-outcomes", f"{name}:{'+'.join(o)}" + (":dul-died" if died else ""), f"{name} reports {o}; scenario {_brief(sc)}")
             return
         n_term = [e[2] for e in rec.events if e[1] == key and e[2] in TERMINAL]
+        sites = [str(e[3]) for e in rec.events if e[1] == key and e[2] in TERMINAL]  # which pynetdicom function fired each one
         if len(n_term) > 1:
             acse = [e[3] for e in rec.events if e[1] == key and e[2] == "EVT_ACSE_SENT"]
             when = "during-own-release" if "A_RELEASE" in acse else "no-own-release"
             kinds = sorted(set(n_term))
             label = f"{kinds[0]}-repeated" if len(kinds) == 1 else "+".join(kinds)
-            ctx.fail("terminal-event-count", f"{name}:{label}:{when}" + (":dul-died" if died else ""), f"{name} fired terminal events {n_term}; outcome {o}; scenario {_brief(sc)}")
+            ctx.fail("terminal-event-count", f"{name}:{label}:{when}:{'+'.join(sorted(sites))}" + (":dul-died" if died else ""), f"{name} fired terminal events {n_term} from {sites}; outcome {o}; scenario {_brief(sc)}")
             return
         if died:
             continue
